@@ -1,2 +1,52 @@
-(* Spec/BedSpec.v — specification-level definitions. *)
+(* Spec/BedSpec.v — the objects property C04 talks about: the record that a
+   write -> read round trip promises ([first_n]: the first N fields, zero values
+   beyond), the domain of the property ([bed_ok]) and byte counting. *)
 From Bio Require Import Base.
+From Bio.Model Require Import Bed.
+
+(* the first N fields of b; the zero value of the Go type beyond *)
+Definition first_n (b : bed) : bed :=
+  let n := b_n b in
+  {| b_n := n;
+     b_chrom := b_chrom b;
+     b_start := b_start b;
+     b_end := b_end b;
+     b_name := if (n >? 3)%Z then b_name b else [];
+     b_score := if (n >? 4)%Z then b_score b else 0%Z;
+     b_strand := if (n >? 5)%Z then b_strand b else [];
+     b_thick_start := if (n >? 6)%Z then b_thick_start b else 0%Z;
+     b_thick_end := if (n >? 7)%Z then b_thick_end b else 0%Z;
+     b_rgb := if (n >? 8)%Z then b_rgb b else (0, 0, 0);
+     b_block_count := if (n >? 9)%Z then b_block_count b else 0%Z;
+     b_block_sizes := if (n >? 10)%Z then b_block_sizes b else [];
+     b_block_starts := if (n >? 11)%Z then b_block_starts b else [] |}.
+
+Definition text_ok (s : bytes) : Prop := clean [TAB; CR; LF] s.
+
+Definition strand_valid (s : bytes) : Prop :=
+  s = [] \/ s = [43] \/ s = [45] \/ s = [46].              (* "" "+" "-" "." *)
+
+Definition rgb_ok (c : N * N * N) : Prop :=
+  let '(r, g, b) := c in r < 256 /\ g < 256 /\ b < 256.    (* [3]byte *)
+
+(* Conditions on a record all of whose fields are written. *)
+Definition fields_ok (b : bed) : Prop :=
+  text_ok (b_chrom b) /\ (forall r, b_chrom b <> 35 :: r)       (* not a comment line *)
+  /\ text_ok (b_name b) /\ strand_valid (b_strand b)
+  /\ int64 (b_start b) /\ int64 (b_end b) /\ int64 (b_score b)
+  /\ int64 (b_thick_start b) /\ int64 (b_thick_end b)
+  /\ rgb_ok (b_rgb b) /\ int64 (b_block_count b)
+  /\ Forall int64 (b_block_sizes b) /\ Forall int64 (b_block_starts b)
+  (* "block lists consistent with the block count": the lists as written
+     have length BlockCount (DESIGN.md section 1, Boundaries) *)
+  /\ Z.of_nat (length (b_block_sizes b)) = b_block_count b
+  /\ Z.of_nat (length (b_block_starts b)) = b_block_count b.
+
+(* The domain of C04: N in 3..12 and the conditions above on the first N
+   fields only — fields beyond N are unconstrained (they are not written).
+   int64 and rgb_ok are met by every Go value. For N = 10 the block count must
+   be 0, for N = 11 also BlockSizes must be empty: the reader sees no list. *)
+Definition bed_ok (b : bed) : Prop :=
+  (3 <= b_n b <= 12)%Z /\ fields_ok (first_n b).
+
+Definition count_byte (x : byte) (s : bytes) : nat := length (filter (N.eqb x) s).
